@@ -11,3 +11,7 @@ func tickArm(budget uint64, onTrip func()) {}
 func tickDisarm() {}
 
 const ticksAvailable = false
+
+func covReset() {}
+
+func covNew(seen *[1 << 16]uint8) int { return 0 }
